@@ -187,7 +187,10 @@ type tableXML struct {
 	Name      string        `xml:"name,attr"`
 	StyleName string        `xml:"style-name,attr"`
 	Columns   []tableColXML `xml:"table-column"`
-	Rows      []tableRowXML `xml:"table-row"`
+	// HeaderRows are the rows grouped under <table:table-header-rows> (repeated
+	// on every page); they come before the other rows of the table.
+	HeaderRows []tableRowXML `xml:"table-header-rows>table-row"`
+	Rows       []tableRowXML `xml:"table-row"`
 }
 
 // tableColXML represents a table column definition.
